@@ -117,6 +117,29 @@ theorem clone_into_original_wins (c : Cfg) (into : KVs) (hc : TypeOK c) (hci : C
   · intro p hm
     rw [node_into_viewT c into hc hk hci, hm]; simp
 
+/-- A clone - plain or into any class - is a function of the CURRENT data slots only: two configurations
+    whose ten slots agree have the same clone, whatever histories (earlier clones into the same class,
+    merged or unmerged level loads, edits, deletions) produced them.  In the model this holds by
+    construction (a `Cfg` IS its slots: no cache, no memo); it is stated because the implementation has
+    to behave the same way, which the correspondence check of the clone-history family tests: model
+    configuration after the same operation sequence -> `clone into` -> compared with the real clone. -/
+theorem clone_depends_on_current_slots_only (c₁ c₂ : Cfg) (into : KVs) (h : ∀ s : Slot, c₁.get s = c₂.get s) :
+    c₁.clone into = c₂.clone into := by
+  have e : c₁ = c₂ := by
+    cases c₁; cases c₂
+    have h1 := h .defaults; have h2 := h .collection; have h3 := h .system; have h4 := h .user
+    have h5 := h .project; have h6 := h .env; have h7 := h .runtime; have h8 := h .overrides
+    have h9 := h .modifications; have h10 := h .deletions
+    simp only [Cfg.get] at h1 h2 h3 h4 h5 h6 h7 h8 h9 h10
+    subst h1 h2 h3 h4 h5 h6 h7 h8 h9 h10
+    rfl
+  rw [e]
+
+/-- in particular a level replaced WITHOUT re-merging (`load_*(…, merge=False)`) is already the level a
+    subsequent clone carries, and an earlier clone into the same class leaves no trace -/
+theorem clone_after_unmerged_load (c : Cfg) (s : Slot) (data into : KVs) :
+    (c.loadUnmerged s data).clone into = (c.set s data).clone into := rfl
+
 /-! ## heap model: freshness of copies, caller-held data never written
 
 `Model/ConfigHeap.lean`: dict objects at `Nat` addresses, `copy_dict` / `merge_dicts` / `obliterate` /
